@@ -84,6 +84,13 @@ Definition eff_limit (n : Z) : Z := if (n <=? 0)%Z then defaultMaxMetadataBytes 
 (* io.LimitReader: the prefix of the body that a reader behind the limit can ever obtain *)
 Definition seen (limit : Z) (body : str) : str := firstn (Z.to_nat (eff_limit limit)) body.
 
+(* calculateDigestFromResponse (a manifest GET without Docker-Content-Digest, since 4dc7269): the
+   body is read through io.LimitReader(limit+1); what was read, and whether it is rejected as
+   exceeding MaxMetadataBytes *)
+Definition digest_probe (limit : Z) (body : str) : str * bool :=
+  let got := firstn (Z.to_nat (eff_limit limit + 1)) body in
+  (got, (eff_limit limit <? Z.of_nat (length got))%Z).
+
 (* limitSize: true = rejected *)
 Definition limit_size_rejects (limit : Z) (size : Z) : bool := (eff_limit limit <? size)%Z.
 
